@@ -15,15 +15,23 @@ CONSTANTS MaxK,        \* owner names besides the apex
 la == <<97>>  lb == <<98>>  lA == <<65>>  lc == <<99>>  lB == <<66>>
 ex == <<101, 120>>
 Apex == <<ex>>
+\* the zone suffix in other spellings: owner names, the apex records and the
+\* apex name handed to the generators are spelled independently of each other
+Up(l) == [i \in 1..Len(l) |-> IF l[i] \in 97..122 THEN l[i] - 32 ELSE l[i]]
+UpName(n) == [i \in 1..Len(n) |-> Up(n[i])]
+EX == Up(ex)  Ex == <<69, 120>>
+\* a top-level label that contains the wire form of the apex (length octet
+\* 2, "ex"): "f\002ex." sorts after the zone and is not part of it
+Affix == <<102, 2, 101, 120>>
 
 \* spelled owner names: case-only variants, wildcards, two levels (three in
 \* the thorough tier), and names outside the zone before and after it
 U1 == {<<la, ex>>, <<lA, ex>>, <<lb, ex>>, <<Star, ex>>}
-U2 == {<<la, la, ex>>, <<lb, la, ex>>, <<Star, la, ex>>, <<la, lA, ex>>,
-       <<la, lb, ex>>, <<lb, lb, ex>>, <<Star, lb, ex>>, <<lA, lb, ex>>}
+U2 == {<<la, la, ex>>, <<lb, la, ex>>, <<Star, la, Ex>>, <<la, lA, ex>>,
+       <<la, lb, ex>>, <<lb, lb, EX>>, <<Star, lb, ex>>, <<lA, lb, ex>>}
 U3 == {<<la, la, la, ex>>, <<lb, la, la, ex>>}
-Ooz == {<<la>>, <<<<102, 120>>>>}                       \* "a."  and  "fx."
-UNames == U1 \cup U2 \cup (IF Thorough THEN U3 \cup Ooz ELSE {<<<<102, 120>>>>})
+Ooz == {<<la>>, <<<<102, 120>>>>, <<Affix>>}            \* "a.", "fx.", "f\002ex."
+UNames == U1 \cup U2 \cup (IF Thorough THEN U3 \cup Ooz ELSE {<<Affix>>})
 
 \* {NS, SOA, TXT}: the record collection also holds the apex of the delegated
 \* child zone (its SOA and other data sit at the delegation point): still a
@@ -68,6 +76,56 @@ ExtraZones == {
 DeepZones == { Recs(<<<<120, 121>>>> \o Deep(124) \o <<ex>>, {T_A}) \cup Recs(Deep(3) \o <<ex>>, {T_TXT}) }
 IsDeep == \E r \in zone : Len(r.n) > 10          \* one hash order is enough there
 
+\* Sibling order (RFC 4034 6.1: octets compared unsigned, upper-case US-ASCII
+\* letters as lower case, nothing else folded).  One octet of every class the
+\* fold and the octet order distinguish: below the digits, digits, between
+\* digits and upper case, upper case, 0x5B-0x60 (between the cases), lower
+\* case, above lower case, and >= 0x80 (0xC1 / 0xE1 are a case pair in
+\* Latin-1 only); two-octet labels that differ behind a common first octet
+\* or extend a shorter label.
+EdgeOctets == {0, 45, 48, 64, 65, 90, 91, 95, 96, 97, 122, 123, 127, 128, 193, 225, 255}
+EdgeLabels == {<<o>> : o \in EdgeOctets}
+              \cup {<<97, 95>>, <<97, 66>>, <<97, 99>>, <<97, 0>>, <<97, 45>>, <<65, 96>>, <<97, 123>>}
+OrdT(l) == IF l # LowerSeq(l) THEN {T_TXT} ELSE {T_A}     \* "A" and "a" are one owner
+EdgeCore == {<<64>>, <<65>>, <<90>>, <<91>>, <<95>>, <<96>>, <<97>>, <<122>>, <<123>>, <<193>>, <<225>>}
+lu == <<95>>  lz == <<122>>
+OrderZones ==
+  { UNION {Recs(<<l, ex>>, OrdT(l)) : l \in EdgeLabels},
+    \* names are compared label by label from the right
+    Recs(<<lu, la, ex>>, {T_A}) \cup Recs(<<la, lu, ex>>, {T_A}) \cup Recs(<<lz, lu, ex>>, {T_TXT})
+      \cup Recs(<<lu, lz, ex>>, {T_A}) \cup Recs(<<lu, lu, EX>>, {T_A}) \cup Recs(<<lB, <<91>>, ex>>, {T_A})
+      \cup Recs(<<<<96>>, lB, ex>>, {T_A}) \cup Recs(<<lu, ex>>, {T_NS}) }
+  \cup { Recs(<<l, ex>>, {T_A}) \cup Recs(<<m, ex>>, {T_A}) : l, m \in {x \in EdgeCore : TRUE} }
+OrderZonesOk == \A z \in OrderZones : \A r1, r2 \in z : (NameEq(r1.n, r2.n) /\ r1.t = r2.t) => r1 = r2
+
+\* NSEC3 parameters: iteration counts around the RFC 5155 10.3 limits and the
+\* 8/15/16-bit boundaries, salts of 0, 1, 2, 4, 8, 254 and 255 octets
+SaltN(n, f) == [i \in 1..n |-> (i * f) % 256]
+PM == << DefaultParams,
+         [salt |-> <<0>>, iters |-> 3],
+         [salt |-> <<255, 0, 171, 205, 1, 128, 127, 254>>, iters |-> 150],
+         [salt |-> <<171, 205>>, iters |-> 2500],
+         [salt |-> <<171, 205>>, iters |-> 2501],
+         [salt |-> <<>>, iters |-> 5000],
+         [salt |-> SaltN(255, 7), iters |-> 1],
+         [salt |-> <<1, 2, 3, 4>>, iters |-> 65535],
+         [salt |-> SaltN(254, 11), iters |-> 256],
+         [salt |-> <<255>>, iters |-> 32768] >>
+\* zones on which every parameter set is tried (an insecure delegation, ENTs,
+\* a wildcard; the apex records spelled "Ex" in the second)
+ParamZones ==
+  { Recs(Apex, {T_SOA, T_NS}) \cup Recs(<<la, ex>>, {T_A}) \cup Recs(<<la, lb, Ex>>, {T_NS})
+      \cup Recs(<<Star, lc, lb, ex>>, {T_TXT}),
+    Recs(<<Ex>>, {T_SOA, T_NS}) \cup Recs(<<lb, ex>>, {T_NS, T_DS}) \cup Recs(<<la, lb, ex>>, {T_A}) }
+
+\* zones the generators must refuse (documented: the apex SOA cannot be
+\* determined): no SOA at all, a SOA only at a delegated child's apex, two
+\* SOA RRs at the apex
+BadZones ==
+  { Recs(Apex, {T_NS}) \cup Recs(<<la, ex>>, {T_A}),
+    Recs(Apex, {T_NS}) \cup Recs(<<lb, ex>>, {T_NS, T_SOA, T_TXT}),
+    Recs(Apex, {T_SOA, T_NS}) \cup {[n |-> Apex, t |-> T_SOA, v |-> 2]} \cup Recs(<<la, ex>>, {T_A}) }
+
 Configs == [assume : BOOLEAN, exclude : BOOLEAN]
 
 \* probe names: owners, ancestors, wildcards, some absent ones (lower case)
@@ -103,15 +161,21 @@ Init ==
         /\ \/ \E av \in ApexSets : \E S \in SUBSET UNames :
                  /\ Cardinality(S) <= MaxK
                  /\ \E f \in [S -> Menu] : ZoneOk(S, f) /\ zone = MkZone(av, S, f)
-           \/ \E z \in ExtraZones \cup (IF Thorough THEN DeepZones ELSE {}) :
+           \/ \E z \in ExtraZones \cup OrderZones \cup (IF Thorough THEN DeepZones ELSE {}) :
                  zone = Recs(Apex, {T_SOA, T_NS}) \cup z
+           \/ zone \in ParamZones
+     \/ kind = "badzone" /\ zone \in BadZones
      \/ kind = "bitmap" /\ zone = {}
   /\ recs = SortRecs(zone)
+
+\* the apex name as the caller hands it to the generators
+Arg == IF kind = "zone" /\ Cardinality(zone) % 5 \in {1, 3} THEN <<EX>> ELSE Apex
+RkOf == IF rk >= 100 THEN 1 ELSE rk          \* rk > 100: parameter set PM[rk - 100]
 
 RunNsec ==
   /\ kind = "zone" /\ step = "zone"
   /\ step' = "nsec"
-  /\ nsecOut' = [a \in BOOLEAN |-> NsecPass(recs, Apex, a)]
+  /\ nsecOut' = [a \in BOOLEAN |-> NsecPass(recs, Arg, a)]
   /\ UNCHANGED <<kind, zone, recs, n3Out, rk, adds>>
 
 RunNsec3 ==
@@ -119,9 +183,27 @@ RunNsec3 ==
   /\ \E r \in 1..(IF IsDeep THEN 1 ELSE NRanks) :
         /\ rk' = r
         /\ LET rf == RankOf(r)
-           IN n3Out' = [c \in Configs |-> Nsec3Pass(recs, Apex, c.exclude, c.assume, rf)]
+           IN n3Out' = [c \in Configs |-> Nsec3Pass(recs, Arg, c.exclude, c.assume, rf)]
   /\ step' = "nsec3"
   /\ UNCHANGED <<kind, zone, recs, nsecOut, adds>>
+
+\* the chain under every parameter set of PM (the hash is uninterpreted: the
+\* model chain is the same, the hashes and their order differ in the replay)
+RunNsec3Params ==
+  /\ kind = "zone" /\ step = "nsec" /\ zone \in ParamZones
+  /\ \E i \in 1..Len(PM) : rk' = 100 + i
+  /\ LET rf == RankOf(1)
+     IN n3Out' = [c \in Configs |-> Nsec3Pass(recs, Arg, c.exclude, c.assume, rf)]
+  /\ step' = "nsec3"
+  /\ UNCHANGED <<kind, zone, recs, nsecOut, adds>>
+
+RunBad ==
+  /\ kind = "badzone" /\ step = "zone"
+  /\ step' = "bad"
+  /\ nsecOut' = [a \in BOOLEAN |-> NsecPass(recs, Apex, a)]
+  /\ LET rf == RankOf(1)
+     IN n3Out' = [c \in Configs |-> Nsec3Pass(recs, Apex, c.exclude, c.assume, rf)]
+  /\ UNCHANGED <<kind, zone, recs, rk, adds>>
 
 BmTypes == {1, 2, 6, 8, 43, 46, 47, 48, 51, 255, 256, 257, 511, 32768, 65280, 65535}
 BmAddType ==
@@ -129,7 +211,7 @@ BmAddType ==
   /\ \E t \in BmTypes : adds' = Append(adds, t)
   /\ UNCHANGED <<kind, zone, recs, step, nsecOut, n3Out, rk>>
 
-Next == RunNsec \/ RunNsec3 \/ BmAddType
+Next == RunNsec \/ RunNsec3 \/ RunNsec3Params \/ RunBad \/ BmAddType
 Spec == Init /\ [][Next]_vars
 
 --------------------------------------------------------------------------
@@ -143,7 +225,7 @@ NsecPassEqualsDeclarative ==
        /\ LowChain(nsecOut[a].out) = NsecChainV(v, Apex, a)
 Nsec3PassEqualsDeclarative ==
   step = "nsec3" =>
-    LET rf == RankOf(rk)
+    LET rf == RankOf(RkOf)
         v  == View(zone, Apex)
     IN \A c \in Configs :
        /\ ~n3Out[c].err
@@ -175,7 +257,14 @@ Nsec3Covers ==
                Deniable(v, Apex, q, t) => N3Proves(ch, v, names, Apex, q, t)
 \* the hash orders really are injective
 RanksOk == step = "nsec3" =>
-  LET rf == RankOf(rk) IN \A m, n \in DOMAIN rf : m # n => rf[m] # rf[n]
+  LET rf == RankOf(RkOf) IN \A m, n \in DOMAIN rf : m # n => rf[m] # rf[n]
+
+BadZonesRefused ==
+  step = "bad" => (\A a \in BOOLEAN : nsecOut[a].err) /\ (\A c \in Configs : n3Out[c].err)
+ParamsOk == (kind = "bitmap" /\ adds = <<>>) =>
+  /\ \A i \in 1..Len(PM) : IsParams(PM[i])
+  /\ \A k \in 0..3 : RepLaw(<<la, ex>>, <<171, 0>>, k)
+  /\ OrderZonesOk
 
 BitmapBuilderIsSetEncoding ==
   kind = "bitmap" => BmBuild(adds) = BitmapOf({adds[i] : i \in 1..Len(adds)})
